@@ -77,6 +77,11 @@ def single_coil_matrix(sp, c):
 
 def run(ctx):
     proof_ok = ctx.prove("Prop_C16.v")
+    # tie by translation (DESIGN 2.8): gen/Gen_sense.v is regenerated from sigpy/mri/linop.py + sigpy/mri/app.py (translate_all job
+    # "sense") and compiled; its `gen_*_ok` lemmas state that Sense / the recon apps' set-up as written in the source equal the
+    # terms of model/Sense.v (sense_factory) and model/SenseRecon.v; proofs/SenseFactory.v: sense_factory = sense_tree on the slices
+    from tools import translate_sense
+    tie_broken = translate_sense.tie(ctx)   # obligations "translate:sigpy/mri/linop.py (...)", "translate:sigpy/mri/app.py (...)", "tie:..."
     sp = core.import_sigpy()
     import sigpy.mri as mr
     rng = ctx.rng
@@ -172,14 +177,21 @@ def run(ctx):
         ctx.violation("C16: model and implementation disagree (%s), e.g. %s" % (cls, meta[idxs[0]][1]),
                       {"kind": "correspondence", "broken": "corr:" + cls, "case": meta[idxs[0]][1]}, found_input=False,
                       signature="C16:corr:" + cls)
-    if (not proof_ok or not corr_ok) and not ctx.violations:
-        broken = getattr(ctx, "broken_proof", {"theorem": "corr:coq-run"})
+    if (not proof_ok or not corr_ok or tie_broken) and not ctx.violations:
+        broken = getattr(ctx, "broken_proof", tie_broken or {"theorem": "corr:coq-run"})
         ctx.violation("proof obligation no longer checks: %s" % broken.get("theorem"), {"kind": "proof", "broken": broken},
                       found_input=False, signature="C16:proof")
     ctx.trusted += ["Coq kernel + vm_compute (PrimFloat for running)", "hand model coq/model/Sense.v + Linop.v, tied by exact tree comparison",
+                    "tools/translate_sense.py (fail-closed reading of Sense and of the recon apps' __init__; readings of numpy slicing / "
+                    "** 0.5 / unary minus / to_device as the abstract array names of model/Sense.v `aops`: notes/translate_sense.md)",
                     "single-coil Fourier matrix measured on the implementation (FFT: C05, NUFFT: C06)", "vlib/linser.py"]
     ctx.validated_only += ["SenseRecon / L1WaveletRecon / TotalVariationRecon optimality is checked numerically on small problems (KKT / solver agreement); "
-                           "the link objective = C14 instance is by construction of the apps", "tseg, comm, transp_nufft branches are outside the model"]
+                           "the link objective = C14 instance is by construction of the apps", "tseg, comm branches are outside the model (the translation fixes tseg = comm = None and does not read those branches)",
+                           "model/SenseRecon.v (what the recon apps hand to LinearLeastSquares) is tied to the source text by translation only"]
+    ctx.proved += ["gen/Gen_sense.v: Sense as written in sigpy/mri/linop.py (incl. transp_nufft, per-coil weight slicing) = sense_factory; "
+                   "_estimate_weights / SenseRecon / L1WaveletRecon / TotalVariationRecon set-up = model/SenseRecon.v",
+                   "proofs/SenseFactory.v sense_factory_is_tree: for coil_batch_size >= 1 the factory is sense_tree applied to "
+                   "maps[c*b:(c+1)*b], sqrt(weights) resp. sqrt(weights[c*b:(c+1)*b]), c = 0 .. ceil(nc/b)-1"]
 
 
 def collect_multiply_arrays(A):
